@@ -40,9 +40,12 @@ type BatchCfg struct {
 	Stop    bool   `json:"stop"`
 	ExecS   string `json:"execS"` // res | any | absent
 	HasPost bool   `json:"hasPost"`
-	Shape   string `json:"shape"`             // results | anys | typed | single | nil
-	Build   string `json:"build,omitempty"`   // option | builder | bare (run the *BatchNode inside the builder)
-	ExecVia string `json:"execVia,omitempty"` // "" (BatchNodeBuilder setters) | copt | cbuilder (exec installed on the CustomNode)
+	Shape   string `json:"shape"`           // results | anys | typed | single | nil
+	Build   string `json:"build,omitempty"` // option | builder | bare (run the *BatchNode inside the builder)
+	// PrepConf (harness only): the node is BUILT with decoy batch settings (another concurrency, the other error mode) and
+	// its prep callback gives it the real ones: the settings that count are the ones in force when prep has returned
+	PrepConf bool   `json:"prepConf,omitempty"`
+	ExecVia  string `json:"execVia,omitempty"` // "" (BatchNodeBuilder setters) | copt | cbuilder (exec installed on the CustomNode)
 }
 
 type Conn struct {
@@ -900,6 +903,17 @@ func (e *runtimeEnv) buildBatch(id int, cfg *BatchCfg) flyt.Node {
 func (e *runtimeEnv) buildBatchWith(b *batchImpl) *flyt.BatchNodeBuilder {
 	cfg, id := b.cfg, b.rt0.id
 	wait := time.Duration(cfg.Wait) * time.Millisecond
+	// the batch settings the node is BUILT with: the real ones, or (PrepConf) decoys that the prep callback replaces
+	bConc, bStop := cfg.Conc, cfg.Stop
+	var reconf func()
+	if cfg.PrepConf {
+		bStop = !cfg.Stop
+		if cfg.Conc > 0 {
+			bConc = 0
+		} else {
+			bConc = 3
+		}
+	}
 
 	// prep as the Go value the scenario's shape asks for
 	prepCommon := func(shared *flyt.SharedStore) (vals []any, results []flyt.Result, err error) {
@@ -907,6 +921,9 @@ func (e *runtimeEnv) buildBatchWith(b *batchImpl) *flyt.BatchNodeBuilder {
 		e := rt.env
 		v := rt.enterBatchPrep()
 		e.record(fmt.Sprintf("bp:%d:%d:%d", id, v, e.sid(shared)))
+		if reconf != nil {
+			reconf()
+		}
 		var log []int
 		if x, ok := shared.Get("visits"); ok {
 			log = append(log, x.([]int)...)
@@ -953,6 +970,12 @@ func (e *runtimeEnv) buildBatchWith(b *batchImpl) *flyt.BatchNodeBuilder {
 			out := make([]int, len(vals))
 			for i, x := range vals {
 				out[i] = x.(int)
+			}
+			return out, nil
+		case "ptrs": // a typed slice whose elements may be nil: every element is an item, the nil ones too
+			out := make([]*int, len(vals))
+			for i, x := range vals {
+				out[i] = x.(*int)
 			}
 			return out, nil
 		case "single":
@@ -1055,17 +1078,17 @@ func (e *runtimeEnv) buildBatchWith(b *batchImpl) *flyt.BatchNodeBuilder {
 	// get them in the order error mode, wait, concurrency, budget instead of budget, concurrency, wait, error mode
 	swapped := (cfg.Budget+cfg.Conc+len(cfg.Shape)+len(cfg.ExecS))%2 == 1
 	if optBudget && !swapped {
-		baseOpts = append(baseOpts, flyt.WithMaxRetries(cfg.Budget), flyt.WithBatchConcurrency(cfg.Conc))
+		baseOpts = append(baseOpts, flyt.WithMaxRetries(cfg.Budget), flyt.WithBatchConcurrency(bConc))
 	}
 	if optWait {
 		if swapped {
-			baseOpts = append(baseOpts, flyt.WithBatchErrorHandling(!cfg.Stop), flyt.WithWait(wait))
+			baseOpts = append(baseOpts, flyt.WithBatchErrorHandling(!bStop), flyt.WithWait(wait))
 		} else {
-			baseOpts = append(baseOpts, flyt.WithWait(wait), flyt.WithBatchErrorHandling(!cfg.Stop))
+			baseOpts = append(baseOpts, flyt.WithWait(wait), flyt.WithBatchErrorHandling(!bStop))
 		}
 	}
 	if optBudget && swapped {
-		baseOpts = append(baseOpts, flyt.WithBatchConcurrency(cfg.Conc), flyt.WithMaxRetries(cfg.Budget))
+		baseOpts = append(baseOpts, flyt.WithBatchConcurrency(bConc), flyt.WithMaxRetries(cfg.Budget))
 	}
 	bb := flyt.NewBatchNode(baseOpts...)
 	native := cfg.Shape == "results" && cfg.Fb == "pass" && cfg.ExecVia == ""
@@ -1103,17 +1126,17 @@ func (e *runtimeEnv) buildBatchWith(b *batchImpl) *flyt.BatchNodeBuilder {
 		bb.BatchNode.CustomNode = nb.CustomNode
 	}
 	if !optBudget && !swapped {
-		bb.WithMaxRetries(cfg.Budget).WithBatchConcurrency(cfg.Conc)
+		bb.WithMaxRetries(cfg.Budget).WithBatchConcurrency(bConc)
 	}
 	if !optWait {
 		if swapped {
-			bb.WithBatchErrorHandling(!cfg.Stop).WithWait(wait)
+			bb.WithBatchErrorHandling(!bStop).WithWait(wait)
 		} else {
-			bb.WithWait(wait).WithBatchErrorHandling(!cfg.Stop)
+			bb.WithWait(wait).WithBatchErrorHandling(!bStop)
 		}
 	}
 	if !optBudget && swapped {
-		bb.WithBatchConcurrency(cfg.Conc).WithMaxRetries(cfg.Budget)
+		bb.WithBatchConcurrency(bConc).WithMaxRetries(cfg.Budget)
 	}
 	if cfg.Shape == "results" {
 		bb.WithPrepFunc(prepRes)
@@ -1128,6 +1151,12 @@ func (e *runtimeEnv) buildBatchWith(b *batchImpl) *flyt.BatchNodeBuilder {
 	}
 	if cfg.HasPost {
 		bb.WithPostFunc(post)
+	}
+	if cfg.PrepConf {
+		reconf = func() {
+			bb.WithBatchConcurrency(cfg.Conc)
+			bb.WithBatchErrorHandling(!cfg.Stop)
+		}
 	}
 	return bb
 }
